@@ -182,6 +182,56 @@ def r4(ctx):
     ctx.ob('C09.R4', fn, fn.body, okb, 'slice bound', 'slice start + length checked against the size of the data written (not the unset length byte): %s' % okb)
 
 
+def r7(ctx):
+    ctx.rule('C09.R7', 'the arrival time of a chain part is refreshed whenever the part is stored, changed or not: in both '
+             'ChainedMessage::storeLastData(index, ...) overloads every path that reaches combineLastParts() passes '
+             'time(&m_last{Master,Slave}UpdateTimes[index]); the re-join needs all part times within its window, a part that '
+             'answers with the same bytes again must not keep a stale time', minimum=2)
+    fb = ctx.fb
+    n = 0
+    for fn in fb.fns('ebusd::ChainedMessage::storeLastData'):
+        if len(fn.params) != 2 or 'size_t' not in (fn.params[0].get('t') or '') and 'unsigned long' not in (fn.params[0].get('t') or ''):
+            continue
+        comb = [c for c in fn.all('CXXMemberCallExpr') if (fn.nodes[c].get('callee') or '').endswith('::combineLastParts')]
+        stamps = set(c for c in fn.all('CallExpr') if fn.nodes[c].get('callee') == 'time' and fn.nodes[c].get('args') and
+                     'UpdateTimes[%s]' % fn.P(0) in fn.key(fn.nodes[c]['args'][0]))
+        for c in comb:
+            n += 1
+            ctx.touch(fn)
+            stale = not stamps or fn.reaches_point(fn.entry, fn.pos(c), stamps)
+            ctx.ob('C09.R7', fn, c, not stale, 'part time refreshed in storeLastData(%s)' % fn.params[1].get('t', '')[:40],
+                   'every path to combineLastParts() passes the time stamp of this part: %s' % (not stale))
+    if n < 2:
+        raise AnalysisBroken('C09.R7: only %d combineLastParts() calls found in the indexed storeLastData overloads' % n)
+
+def r8(ctx):
+    ctx.rule('C09.R8', 'a message to the broadcast address or to a master has no slave part: in DataField::create a field becomes '
+             'slave data only if the destination is neither broadcast nor a master (whatever the part column says), otherwise '
+             'the value supplied for it is dropped from the telegram that is built', minimum=1)
+    fb = ctx.fb
+    fn = fb.fn('ebusd::DataField::create')
+    ctx.touch(fn)
+    slave = None
+    for en, e in fb.enums.items():
+        for x in e['enumerators']:
+            if x['name'] == 'pt_slaveData':
+                slave = x['v']
+    bc = fn.P(2)
+    n = 0
+    for nid, d, rhs, op, lhs in fn.assignments():
+        if rhs is None or fn.val(rhs) != slave or op not in ('=', 'init'):
+            continue
+        t = fn.nodes.get(fn.strip(lhs), {}).get('t') if lhs is not None else None
+        if lhs is not None and 'PartType' not in (t or ''):
+            continue
+        n += 1
+        atoms = set((a[0], a[1]) for a in fn.atoms(nid))
+        ok = (bc, False) in atoms
+        ctx.ob('C09.R8', fn, nid, ok, 'field becomes slave data', 'only for a slave destination (%s false): %s' % (bc, ok))
+    if n < 1:
+        raise AnalysisBroken('C09.R8: assignment of pt_slaveData not found in DataField::create')
+
+
 def run(ctx):
     r1(ctx)
     r2(ctx)
@@ -191,3 +241,5 @@ def run(ctx):
     ctx.borrow(c08.run, {'C08.R1': 'C09.R5', 'C08.R2': 'C09.R6'},
                'the built telegram must be identified back to the same definition, and a chained part is stored into the '
                'slot that checkId selects')
+    r7(ctx)
+    r8(ctx)
